@@ -90,7 +90,7 @@ pub fn check_flush(c: &FlushCase, cx: &mut Cx) -> vcore::Res {
     .reuse_files(c.reuse);
     let files = match builder.verif_spawn_with(fs.clone(), clock.clone(), rng) {
         Ok(f) => Arc::new(f),
-        Err(e) => return cx.fail("C07/file-e2e/spawn-failed", format!("{e}")),
+        Err(e) => return cx.fail("file-e2e/spawn-failed", format!("{e}")),
     };
     let barrier = Arc::new(Barrier::new(c.threads.len()));
     let mut handles = Vec::new();
@@ -160,8 +160,30 @@ pub fn check_flush(c: &FlushCase, cx: &mut Cx) -> vcore::Res {
     cx.class_if(total_true > 0, "file-e2e:flush-true");
     cx.nontrivial(total_true > 0 && (c.threads.len() >= 2 || created >= 2));
     drop(files);
+    // C10's "emit appends the separator if the formatter did not": after the worker has shut down every
+    // separator-delimited record is exactly one formatted event (no two events run together)
+    if verdict.is_ok() {
+        let g = fs.0.lock().unwrap();
+        'files: for (path, f) in g.files.iter() {
+            for rec in f.data.split(|b| *b == b'\n') {
+                if rec.is_empty() {
+                    continue;
+                }
+                let ok = if c.default_writer {
+                    rec.first() == Some(&b'{') && rec.last() == Some(&b'}') && rec.windows(7).filter(|w| w == b"\"mdl\":\"").count() == 1
+                } else {
+                    rec.first() == Some(&b'<') && rec.last() == Some(&b'>') && rec.iter().filter(|b| **b == b'<').count() == 1
+                };
+                if !ok {
+                    verdict = Err(format!("file-e2e/record-not-one-event|{path}: record {:?} is not exactly one formatted event", String::from_utf8_lossy(rec)));
+                    break 'files;
+                }
+            }
+        }
+    }
     match verdict {
         Ok(()) => Ok(()),
-        Err(msg) => cx.fail("C07/file-e2e/flush-true-but-not-synced", msg),
+        Err(msg) if msg.starts_with("file-e2e/record-not-one-event|") => cx.fail("file-e2e/record-not-one-event", msg),
+        Err(msg) => cx.fail("file-e2e/flush-true-but-not-synced", msg),
     }
 }
